@@ -200,6 +200,7 @@ func TestC03_Relists(t *testing.T) {
 			}
 		}
 
+		lastListRV := -1
 		nrel := rapid.IntRange(1, 7).Draw(t, "relists")
 		var exact, setValued, completed, withDiff, inflightEvents int
 		faults := map[string]bool{}
@@ -220,8 +221,22 @@ func TestC03_Relists(t *testing.T) {
 					inflightEvents += n
 				}
 			}
+			// Completion of list k is recognised by the Watch(resourceVersion = list version) call that
+			// follows it.  That is ambiguous when the list carries the same version as the previous one
+			// (server unchanged) and a reconnect of the previous session - same version - is due: the
+			// harness then makes the versions differ (a change to some other collection advances the
+			// server's version without an event here) and lets the list take its snapshot at release.
+			nextRV := a.rvNow()
+			if atCall {
+				nextRV = req.atCall.rv
+			}
+			if nextRV == lastListRV {
+				a.bumpRV()
+				atCall = false
+			}
 			before := cacheContent()
 			snap := req.release(a, atCall)
+			lastListRV = snap.rv
 			c.h("list #%d released: snapshot at %s, rv %d, %d objects", req.k, map[bool]string{true: "call", false: "release"}[atCall], snap.rv, len(snap.items))
 			waitCompletion(snap.rv)
 			completed++
